@@ -24,6 +24,9 @@ type wlWG struct {
 	Alt      *Model   `json:"alt,omitempty"`    // perm-operands
 	Others   []*Model `json:"others,omitempty"` // concurrent: additional models
 	Tasks    [][]int  `json:"tasks,omitempty"`  // concurrent: per task, indexes into [Model, Others...]
+	// SharedBuilder: the tasks call Build on one builder value (the builder is
+	// stateless today; "concurrent builds in other goroutines" covers it)
+	SharedBuilder bool `json:"shared_builder,omitempty"`
 }
 
 type wgOutcome struct {
@@ -47,6 +50,10 @@ func (o *wgOutcome) verdict() string {
 }
 
 func doBuild(pm *openfgav1.AuthorizationModel) (out wgOutcome) {
+	return doBuildWith(graph.NewWeightedAuthorizationModelGraphBuilder(), pm)
+}
+
+func doBuildWith(builder *graph.WeightedAuthorizationModelGraphBuilder, pm *openfgav1.AuthorizationModel) (out wgOutcome) {
 	before := proto.Clone(pm)
 	defer func() {
 		if r := recover(); r != nil {
@@ -59,7 +66,7 @@ func doBuild(pm *openfgav1.AuthorizationModel) (out wgOutcome) {
 			out.Mutated = true
 		}
 	}()
-	g, err := graph.NewWeightedAuthorizationModelGraphBuilder().Build(pm)
+	g, err := builder.Build(pm)
 	out.G, out.Err = g, err
 	if err != nil {
 		switch {
@@ -660,13 +667,18 @@ func (c *wgCtx) check(cfg simrt.Config) ([]mismatch, simrt.Stats, string) {
 			out       wgOutcome
 		}
 		var results []res
+		shared := graph.NewWeightedAuthorizationModelGraphBuilder()
 		fns := make([]func(), len(wl.Tasks))
 		for t, list := range wl.Tasks {
 			t, list := t, list
 			fns[t] = func() {
 				for _, idx := range list {
 					simrt.Note("wg.build", "invoke", int64(idx))
-					o := doBuild(pms[idx])
+					builder := shared
+					if !wl.SharedBuilder {
+						builder = graph.NewWeightedAuthorizationModelGraphBuilder()
+					}
+					o := doBuildWith(builder, pms[idx])
 					simrt.Note("wg.build", "return", int64(idx))
 					results = append(results, res{t, idx, o})
 				}
@@ -952,7 +964,7 @@ func wgRunOne(b *BatchResult, prop string, seed, run uint64, p wgParams) {
 		if run%4 == 0 {
 			k2 := biasKnobs(prop, r, drawKnobs(r))
 			other := genModel(r, k2)
-			wl4 := &wlWG{Variant: "concurrent", Model: m, Others: []*Model{other}}
+			wl4 := &wlWG{Variant: "concurrent", Model: m, Others: []*Model{other}, SharedBuilder: r.chance(50)}
 			nt := 2 + r.intn(2)
 			for t := 0; t < nt; t++ {
 				var list []int
